@@ -178,6 +178,26 @@ def check(ctx):
             for extra in ([], ["--aggregate"], ["-t", "3"]):
                 runs.append(("variants (reference from the %s annotation) %s: alignment 3 columns wider" % (an, " ".join(extra)), ["variants", "--msa", wide_nr, "-a", ap_] + extra, None))
                 runs.append(("variants (reference from the %s annotation) %s: alignment 3 columns narrower" % (an, " ".join(extra)), ["variants", "--msa", narrow_nr, "-a", ap_] + extra, None))
+        # ... and a symbol outside the IUPAC alphabet in that sequence (the ##FASTA record / the ORIGIN block), at the first, a middle
+        # and the last base, outside and inside a coding feature: the annotation is then the command's reference FASTA
+        import re as _re
+        gb_t, gff_t = open(gb, "rb").read().decode(), open(gff, "rb").read().decode()
+        for where, k in (("first", 0), ("middle", L // 2), ("last", L - 1)):
+            bad_genome = genome[:k] + "J" + genome[k + 1:]
+            o = gb_t.index("ORIGIN")
+            body = gb_t[o:]
+            cnt = -1
+            def sub1(m):
+                nonlocal cnt
+                cnt += 1
+                return "j" if cnt == k else m.group(0)
+            bad_gb = W("badorigin_%s.gb" % where, (gb_t[:o] + "ORIGIN" + _re.sub(r"[acgtn]", sub1, body[6:])).encode())
+            bad_gff = W("badfasta_%s.gff" % where, gff_t.replace(genome, bad_genome).encode())
+            for an, ap_ in (("gff", bad_gff), ("gb", bad_gb)):
+                runs.append(("variants (reference from the %s annotation): a letter outside the IUPAC alphabet at the %s base of the annotation's sequence" % (an, where),
+                             ["variants", "--msa", ok_nr, "-a", ap_], None))
+                runs.append(("sam variants (reference from the %s annotation): a letter outside the IUPAC alphabet at the %s base of the annotation's sequence" % (an, where),
+                             ["sam", "variants", "-s", samp, "-a", ap_], None))
         # the --reference given with a SAM file has to be the sequence the SAM header describes (@SQ LN)
         gff_noreg = W("anno_noregion.gff", anno.render_gff(genome, S["feats"], seqregion=False))
         for what, rf in (("3 bases longer", longref), ("3 bases shorter", shortref)):
@@ -208,7 +228,9 @@ def check(ctx):
         # CSV that is not updown list output
         notcsv = W("not.csv", b"a,b,c\n1,2,3\n")
         fastacsv = W("fasta.csv", fasta(aln))
-        for bad in (notcsv, fastacsv):
+        # ... nor is the same table with a sixth column (a header that merely BEGINS with the five names)
+        sixth = W("sixth.csv", b"".join(l + (b",lineage" if i == 0 else b",B.1") + b"\n" for i, l in enumerate(open(csvp, "rb").read().split(b"\n")) if l))
+        for bad in (notcsv, fastacsv, sixth):
             runs.append(("topranking csv: --query is not updown list output", ["updown", "topranking", "-q", bad, "-t", csvp, "--size-total", "4"], None))
             runs.append(("topranking csv: --target is not updown list output", ["updown", "topranking", "-q", csvp, "-t", bad, "--size-total", "4"], None))
         # a degenerate but valid companion does not excuse the other file: header-only updown list CSV (no rows) as the query
